@@ -66,6 +66,9 @@ struct MissingDependencyScanner {
   int missing_dep_path_count_;
 
  private:
+  bool PathExistsBetween(Edge* from, Edge* to, std::set<Edge*>* visiting,
+                         bool* cut_by_cycle);
+
   using InnerAdjacencyMap = std::unordered_map<Edge*, bool>;
   using AdjacencyMap = std::unordered_map<Edge*, InnerAdjacencyMap>;
   AdjacencyMap adjacency_map_;
